@@ -307,6 +307,22 @@ def apply_real(obj, op, arg):
             ex = [c for c in EXTRAS if c in obj.get_annotation_categories()]
             obj[int(arg[0])] = make_atom(arg[1], arg[2], arg[3], ex)
             return obj, "ok", []
+        if op == "swap_atoms":
+            if kind != "array":
+                raise TypeError("swap_atoms is defined for arrays")
+            i, j = int(arg[0]), int(arg[1])
+            tmp = obj[i]
+            obj[i] = obj[j]
+            obj[j] = tmp
+            return obj, "ok", []
+        if op == "take_then_overwrite":
+            if kind != "array":
+                raise TypeError("take_then_overwrite is defined for arrays")
+            ex = [c for c in EXTRAS if c in obj.get_annotation_categories()]
+            tmp = obj[int(arg[0])]
+            obj[int(arg[0])] = make_atom(arg[1], arg[2], arg[3], ex)
+            cell = _cells(np.asarray(tmp.coord)[None])[0]
+            return obj, "ok", [int(tmp.atom_name[1:]), int(tmp.res_id), cell]
         if op == "set_model":
             if kind != "stack":
                 raise TypeError("set_model is defined for stacks")
@@ -499,7 +515,8 @@ def gen_trace(item):
         kind = "array" if isinstance(obj, struc.AtomArray) else "stack"
         n = obj.array_length()
         d = 1 if kind == "array" else obj.stack_depth()
-        op = rng.choice(["index", "index", "index", "concat", "rconcat", "to_stack", "repeat",
+        op = rng.choice(["index", "index", "index", "concat", "rconcat", "to_stack", "repeat", "swap_atoms",
+                         "take_then_overwrite",
                          "del_atom", "del_model", "set_atom", "set_model", "set_annot", "add_extra",
                          "del_extra", "set_bonds", "clear_bonds", "set_box", "clear_box", "copy",
                          "copy_poke", "poke_after_copy", "from_template"])
@@ -538,6 +555,14 @@ def gen_trace(item):
                 continue
             arg = [rng.randint(-d - 1, d)]
         elif op == "set_atom":
+            if kind != "array":
+                continue
+            arg = [rng.randint(-n - 1, n), rng.randint(60, 99), rng.randint(0, 9), rng.randint(1, 9) * 1000]
+        elif op == "swap_atoms":
+            if kind != "array" or n == 0:
+                continue
+            arg = [rng.randint(-n, n), rng.randint(0, n - 1)]
+        elif op == "take_then_overwrite":
             if kind != "array":
                 continue
             arg = [rng.randint(-n - 1, n), rng.randint(60, 99), rng.randint(0, 9), rng.randint(1, 9) * 1000]
@@ -608,6 +633,7 @@ def run(ctx):
         o = labels[lab_ix[lab]][0]
         ops_seen[o] = ops_seen.get(o, 0) + 1
     need = {"new", "index", "concat", "rconcat", "to_stack", "repeat", "del_atom", "del_model", "set_atom",
+            "swap_atoms", "take_then_overwrite",
             "set_model", "set_annot", "add_extra", "del_extra", "set_bonds", "clear_bonds", "set_box",
             "clear_box", "copy", "copy_poke", "poke_after_copy", "from_template"}
     if need - set(ops_seen):
